@@ -571,8 +571,79 @@ class Timeliness(V3Unit):
         return "emitted"
 
 
+class ContextEngineHistory(V3Unit):
+    """C12, histories: "uses the discovered engine id ... as DEFAULT context engine id" must hold for every request of the
+    client's life, also after a request that named another context engine explicitly (seed C12-q: the message-processing
+    model remembered the context engine of the previous exchange). Three requests on one client: default context, an explicit
+    context (engine id e1, name n1: any octets, e1 not empty), default context again."""
+    props = ("C12",)
+    label = "proved"
+    target = "puresnmp_plugins.mpm.v3:V3MPM.encode"
+    functions = (target, "puresnmp.api.raw:Client.configure", "puresnmp.api.raw:Client._send")
+    name = "v3 default context engine id after a request with an explicit context engine id"
+
+    def run(self, interp):
+        ctx, rt = interp.ctx, self.rt
+        sent = []
+        tmo = get_cls(rt, interp, "puresnmp.exc:Timeout")
+        creds = self.v3creds(interp, "authNoPriv-md5")
+        E, B, Tm = ctx.fresh_bytes("agent_engine_id"), ctx.fresh_int("agent_boots"), ctx.fresh_int("agent_time")
+        counter = self.xv.fresh(ctx, "counter")
+        ctx.assume(lift_bool(rt.xtruth(counter.e)))
+        FA = rfc.Forms("any", ctx)
+        stats = Obj(get_cls(rt, interp, "x690.types:ObjectIdentifier"), {"pyvalue": USM_STATS_UNKNOWN_ENGINE, "_raw_bytes": b""})
+
+        def sender(i, a, k):
+            sent.append((a, k))
+            if len(sent) == 1:
+                return rfc.v3_message(self.clock_vals[-1], 65507, 0, 3, rfc.usm_params(E, B, Tm, b"", b"", b"", FA),
+                                      rfc.scoped_pdu(E, b"", rfc.pdu(rfc.REPORT, 0, 0, 0,
+                                                                     [(SOid(rt.oid.lit(interp, stats)), WVal(counter))], FA), FA), FA)
+            raise PyExc(rt.instantiate(i, tmo, ["stop"], {}))
+        client = rt.instantiate(interp, get_cls(rt, interp, "puresnmp.api.raw:Client"), ["192.0.2.1", creds],
+                                {"sender": Builtin("sender", sender)})
+        oid = ctx.fresh_oid("oid")
+        fn = get_func(rt, interp, "puresnmp.api.raw:Client.multiget")
+        conf = get_func(rt, interp, "puresnmp.api.raw:Client.configure")
+        ccls = get_cls(rt, interp, "puresnmp.api.raw:Context")
+        e1, n1 = ctx.fresh_bytes("explicit_context_engine_id"), ctx.fresh_bytes("explicit_context_name")
+        ctx.assume(Not(interp.eq(e1, b"")))
+        contexts = [None, (e1, n1), (b"", b"")]
+        for c in contexts:
+            if c is not None:
+                interp.call(BoundMethod(conf, client), [], {"context": rt.instantiate(interp, ccls, [c[0], c[1]], {})})
+            try:
+                interp.call(BoundMethod(fn, client), [[oid]], {})
+            except PyExc as pe:
+                if not exc_is(pe.obj, tmo):
+                    raise
+        T = self.target
+        ok = len(sent) == 4
+        ctx.check(oname("C12", T, "ensures", "one-discovery-and-one-datagram-per-request(three-requests)"), ok)
+        if not ok:
+            return "?"
+        user = SBytes(rt.f_str_ascii(creds.fields["username"].e))
+        w = rt.wire
+        hname = rt.str_lit("md5")
+        kul = rt.f_kul(hname, w.z(creds.fields["auth"][0]), E.e)
+        clock_at = {1: 0, 2: 2, 3: 3}
+        for k, (ce, cn, what) in {1: (E, b"", "first-request(default-context)-carries-the-discovered-engine-id"),
+                                  2: (e1, n1, "explicit-context-engine-id-and-name-are-carried"),
+                                  3: (E, b"", "default-context-after-an-explicit-one-carries-the-discovered-engine-id")}.items():
+            rid = self.clock_vals[clock_at[k]] if len(self.clock_vals) > clock_at[k] else SInt(z3.Int("no-clock-read"))
+            F = rfc.Forms("x690")
+            scoped = rfc.scoped_pdu(ce, cn, rfc.pdu(rfc.GET, rid, 0, 0, [(oid, None)], F), F)
+
+            def message(authp, scoped=scoped, rid=rid):
+                Fm = rfc.Forms("x690")
+                return rfc.v3_message(rid, 65507, 5, 3, rfc.usm_params(E, B, Tm, user, authp, b"", Fm), scoped, Fm)
+            digest = SBytes(rt.f_prefix(rt.f_hmac(hname, kul, w.z(message(b"\x00" * 12))), z3.IntVal(12)))
+            ctx.check(oname("C12", T, "ensures", what), interp.eq(sent[k][0][1], message(digest)))
+        return "emitted"
+
+
 def units_c12(tier):
-    return [Timeliness()]
+    return [Timeliness(), ContextEngineHistory()]
 
 
 
